@@ -925,21 +925,29 @@ class SyncObj(object):
                 if prevEntries[0][2] != prevLogTerm:
                     self.__sendNextNodeIdx(node, nextNodeIdx = prevLogIdx, success = False, reset=True)
                     return
-                if len(prevEntries) > 1:
+                # Entries we already hold are kept; the log is cut only from the first entry
+                # that conflicts (same index, different term) with the leader's.
+                existingEntries = prevEntries[1:]
+                matched = 0
+                while matched < len(newEntries) and matched < len(existingEntries) and \
+                        existingEntries[matched][2] == newEntries[matched][2]:
+                    matched += 1
+                if matched < len(newEntries) and matched < len(existingEntries):
                     # rollback cluster changes
                     if self.__conf.dynamicMembershipChange:
-                        for entry in reversed(prevEntries[1:]):
+                        for entry in reversed(existingEntries[matched:]):
                             clusterChangeRequest = self.__parseChangeClusterRequest(entry[0])
                             if clusterChangeRequest is not None:
                                 self.__doChangeCluster(clusterChangeRequest, reverse=True)
 
-                    self.__deleteEntriesFrom(prevLogIdx + 1)
-                for entry in newEntries:
+                    self.__deleteEntriesFrom(prevLogIdx + 1 + matched)
+                entriesToAdd = newEntries[matched:]
+                for entry in entriesToAdd:
                     self.__raftLog.add(*entry)
 
                 # apply cluster changes
                 if self.__conf.dynamicMembershipChange:
-                    for entry in newEntries:
+                    for entry in entriesToAdd:
                         clusterChangeRequest = self.__parseChangeClusterRequest(entry[0])
                         if clusterChangeRequest is not None:
                             self.__doChangeCluster(clusterChangeRequest)
